@@ -188,19 +188,17 @@ def check_api(case, rec):
         mapping = {i: dict(case["entries"][k % 10])
                    for k, i in enumerate(chosen)}
         arg = deepcopy(mapping)
-        twin = t.copy()
         was_none = t.metadata(axis=axis) is None
         t.add_metadata(arg, axis=axis)
         if not any(i in mapping for i in ids):
-            # nothing to add: the table is observably what it was
-            if (t.metadata(axis=axis) is None) != was_none or \
-                    not (t == twin) or (t != twin):
+            # nothing to add: the table is observably what it was, including
+            # whether the axis has metadata at all
+            if (t.metadata(axis=axis) is None) != was_none:
                 raise Violation("noop-add-changed-table", "add_metadata "
                                 "with a mapping naming no ID of the %s axis "
-                                "changed the table: metadata() %r -> %r, "
-                                "== copy-before: %r" %
+                                "changed metadata() from %s to %r" %
                                 (axis, "None" if was_none else "present",
-                                 t.metadata(axis=axis), t == twin))
+                                 t.metadata(axis=axis)))
         want = {"observation": ref.obs_md, "sample": ref.samp_md}
         want[axis] = model_add(ref.md(axis), ids, mapping)
         in_both = [i for i in ids if i in mapping]
